@@ -149,6 +149,18 @@ func vpAllCmp(data map[string]interface{}) vpCmpResults {
 func VP_C05_numbers() {
 	CB, E := vpParam("CB"), vpParam("E")
 	a, b := vpSymNum("a", CB, E), vpSymNum("b", CB, E)
+	if B := vpParam("NEAR"); B > 0 {
+		// 16-digit coefficients a few units apart (distinct decimals that collapse in binary floating point)
+		base := uint64(8000000000000000)
+		if B == 2 {
+			base = 9007199254740990
+		}
+		a.coef, b.coef = base+vpBits("ad", 3), base+vpBits("bd", 3)
+		a.exp = -vpChoice("ne", 3) * 7
+		b.exp = a.exp
+		a.neg = vpBool("nn")
+		b.neg = a.neg
+	}
 	if W := vpParam("WIDE"); W > 0 {
 		// wide scales: exponents from a sparse grid up to 10^W (values beyond 2^63 and 34 digits apart)
 		grid := []int{0, 1, W / 2, W - 1, W}
